@@ -516,7 +516,7 @@ def choose_length(rng, ops, Lpre, style):
 
 
 STYLES = ["flat", "chain", "general", "general", "explicit", "explicit", "mixed", "incremental", "rejected", "collide",
-          "twosel", "twosel", "bigval"]
+          "twosel", "twosel", "bigval", "earlyroot"]
 
 
 def gen_bigval(rng):
@@ -581,10 +581,31 @@ def gen_twosel(rng):
     return ops
 
 
+def gen_earlyroot(rng):
+    """an instance derived by a value-less call BEFORE the first field exists (generic code doing bf(**defaults) with no
+    defaults yet); fields are then defined through both instances -- they describe ONE bit field: overlapping explicit
+    definitions are refused whichever instance they come through, automatic fields get disjoint positions, and the same
+    assignment made through either instance gives the same key and mask"""
+    ops = [["call", 0, []]]                                   # instance 1 = bf()
+    first = rng.choice([0, 1])
+    ops.append(["add", first, 0, rng.randint(1, 4), rng.choice([0, 0, 2, None]), [], "list"])
+    ops.append(["add", 1 - first, 1, rng.randint(1, 4), rng.choice([0, 1, 2, 3, None, None]), [], "list"])
+    ops.append(["add", rng.choice([0, 1]), 2, rng.randint(1, 3), None, [rng.choice([1, 2])] if rng.random() < 0.3 else [], "list"])
+    ops += [["assign", 0], ["assign", 1]] if rng.random() < 0.7 else [["assign", 1], ["assign", 0]]
+    kw = [[0, 1], [1, 1], [2, 1]]
+    ops += [["call", 0, kw], ["call", 1, kw]]
+    ops += [["value", 2, None, None], ["mask", 2, None, None], ["value", 3, None, None], ["mask", 3, None, None],
+            ["mask", 0, None, None], ["mask", 1, None, None], ["loc", 0, 0], ["loc", 1, 0], ["loc", 0, 1], ["loc", 1, 1],
+            ["loc", 0, 2], ["loc", 1, 2]]
+    return dict(L=rng.choice([6, 8, 10, 12]), ops=ops, style="earlyroot")
+
+
 def gen_case(rng, idx):
     style = STYLES[idx % len(STYLES)]
     if style == "bigval":
         return gen_bigval(rng)
+    if style == "earlyroot":
+        return gen_earlyroot(rng)
     if style == "twosel":
         ops = gen_twosel(rng)
         return dict(L=choose_length(rng, ops, 0, "rejected"), ops=ops, style=style)
